@@ -70,6 +70,9 @@ def check_rows(region, L, circular, stats=None):
             continue
         if area["kind"] == "protocluster" and not ns <= area["start"] <= area["end"] <= ne:
             fails.append(("core-outside-extent", f"core [{area['start']},{area['end']}] extent [{ns},{ne}]"))
+        # areas without a core are drawn as one box: it is the extent (or nothing, for the half that only carries the label's twin)
+        if area["kind"] != "protocluster" and (area["start"], area["end"]) != (ns, ne) and not ns <= area["start"] <= area["end"] <= ne:
+            fails.append(("box-outside-extent", f"{area['kind']} box [{area['start']},{area['end']}] extent [{ns},{ne}]"))
         by_height[area["height"]].append((ns, ne, area.get("group", 0)))
         drawn[area["kind"]].append((area.get("group", 0), frozenset(x % L for x in range(ns, ne)),
                                     frozenset(x % L for x in range(area["start"], area["end"]))))
@@ -142,14 +145,18 @@ def check_js(rec, L, stats=None):
             fails.append(("region-range", f"{region.location}: announced [{lo},{hi}]"))
             continue
         orf_groups = collections.defaultdict(list)
+        children = {cds.get_name(): cds for cds in region.cds_children}
         for orf in data["orfs"]:
             start0, end = orf["start"] - 1, orf["end"]
             if not lo0 <= start0 < end <= hi:
-                fails.append(("orf-outside-range", f"{orf['locus_tag']} [{orf['start']},{orf['end']}] range [{lo},{hi}] region {region.location}"))
+                gene = children.get(orf["locus_tag"].replace("_split", ""))
+                # a gene whose exons lie in different parts of an origin-spanning region without itself crossing the origin
+                apart = gene is not None and len(gene.location.parts) > 1 and not gene.crosses_origin()
+                fails.append(("exons-apart-gene-outside-range" if apart else "orf-outside-range",
+                              f"{orf['locus_tag']} [{orf['start']},{orf['end']}] range [{lo},{hi}] region {region.location}"))
             orf_groups[orf["locus_tag"].replace("_split", "")].append(frozenset(x % L for x in range(start0, end)))
             if stats is not None:
                 stats["orfs:checked"] += 1
-        children = {cds.get_name(): cds for cds in region.cds_children}
         if set(orf_groups) != set(children):
             fails.append(("orf-set", f"{sorted(orf_groups)} vs {sorted(children)}"))
             continue
@@ -159,6 +166,9 @@ def check_js(rec, L, stats=None):
             drawn = frozenset().union(*parts)
             gene = children[name]
             hull = R.bases(gene.location)
+            if len(gene.location.parts) > 1 and not gene.crosses_origin():
+                # drawn from its first to its last base, introns included
+                hull = frozenset(range(int(gene.location.start), int(gene.location.end)))
             if drawn != hull:
                 fails.append(("orf-coordinates", f"{name}: drawn {sorted(drawn)} gene {gene.location}"))
         for area in data["clusters"]:
@@ -196,6 +206,11 @@ def build(nslots, circular, areas):
     L = nslots * P.SLOT
     rec, _ = P.make_slotted_record(nslots, circular, P.default_core_functions(nslots), bridging_gene=circular)
     from antismash.common.secmet.features import SubRegion  # pylint: disable=import-outside-toplevel
+    if circular:
+        # a gene with an intron as long as a slot: a region can hold both exons in different parts and leave the intron out
+        from antismash.common.secmet.locations import CompoundLocation, FeatureLocation  # pylint: disable=import-outside-toplevel
+        from mc.universe import worlds as W  # pylint: disable=import-outside-toplevel
+        rec.add_cds_feature(W.make_cds(CompoundLocation([FeatureLocation(4, 6, 1), FeatureLocation(P.SLOT * 2, P.SLOT * 2 + 1, 1)]), "gx"))
     objs = []
     for area in areas:
         obj = P.make_subregion(L, circular, area[1:]) if area[0] == "S" else P.make_protocluster(L, circular, area[1:])
@@ -211,6 +226,12 @@ def build(nslots, circular, areas):
 
 
 def menu(nslots, circular, reduced):
+    if reduced == "asym":
+        # unequal neighbourhoods (sideloaded protoclusters have independent left and right ones): which side of the core the
+        # origin lies on cannot be guessed from the core's distance to either end
+        subs = [a for a in c06.area_menu(nslots, circular, True) if a[0] == "S"]
+        return subs + [["P"] + spec for spec in P.protocluster_menu(nslots, circular, max_core=2, products=("p",),
+                                                                    neighbourhoods=((0, 3), (3, 0), (1, 4), (4, 1), (0, 4)))]
     base = c06.area_menu(nslots, circular, reduced)
     if reduced == "tight":
         return base
@@ -220,10 +241,11 @@ def menu(nslots, circular, reduced):
 
 
 def shards(tier):
-    plans = [(6, False, 3, False), (6, True, 3, False), (6, True, 4, True), (6, True, 4, "tight")]
+    plans = [(6, False, 3, False), (6, True, 3, False), (6, True, 4, True), (6, True, 4, "tight"), (6, True, 2, "asym")]
     if tier == "thorough":
         plans = [(6, False, 4, False), (6, True, 4, False), (7, True, 3, False), (7, True, 4, True),
-                 (6, True, 4, "tight"), (6, False, 4, "tight"), (7, True, 4, "tight"), (8, True, 4, "tight")]
+                 (6, True, 4, "tight"), (6, False, 4, "tight"), (7, True, 4, "tight"), (8, True, 4, "tight"),
+                 (6, True, 3, "asym"), (7, True, 2, "asym"), (8, True, 2, "asym")]
     return [[nslots, circ, k, reduced, chunk] for nslots, circ, k, reduced in plans for chunk in range(_chunks(k, reduced))]
 
 
